@@ -208,7 +208,18 @@ fn ending_client(c: usize, s: usize, descr: &mut Vec<String>) -> Client {
     cl
 }
 
+fn ex_faults_empty(f: &[(u64, AcceptFault, u32)]) -> bool {
+    f.is_empty()
+}
+
 fn server_level(cfg: &RunCfg) -> Outcome {
+    // the global logger is process-wide: start from 'none installed'
+    {
+        let (s, _r) = std::sync::mpsc::sync_channel::<servlin::log::internal::LogEvent>(1);
+        if let Ok(g) = servlin::log::set_global_logger(s) {
+            drop(g);
+        }
+    }
     let dir = RunDir::new("c12");
     let s = 64usize;
     let max_conns = 1 + gen::below(4) as usize;
@@ -221,6 +232,17 @@ fn server_level(cfg: &RunCfg) -> Outcome {
     let mut eng = match Engine::start(scfg) {
         Ok(e) => e,
         Err(e) => return Outcome { harness_error: Some(e), ..Default::default() },
+    };
+    // In a share of the runs the application has installed a global logger whose receiving
+    // end is gone (a stopped logger): accept failures are logged, and logging must not be
+    // able to take the accept loop down.
+    let stopped_logger = gen::ratio(1, 6);
+    let _logger_guard = if stopped_logger {
+        let (s, r) = std::sync::mpsc::sync_channel::<servlin::log::internal::LogEvent>(1);
+        drop(r);
+        servlin::log::set_global_logger(s).ok()
+    } else {
+        None
     };
     eng.weights.job_finish = gen::pick(&[1u32, 1, 4]);
     eng.weights.extra = 2;
@@ -240,6 +262,12 @@ fn server_level(cfg: &RunCfg) -> Outcome {
             faults.push((u64::from(gen::below(200)), f, 1 + gen::below(4)));
         }
         descr.push(format!("accept faults {faults:?}"));
+    }
+    if stopped_logger {
+        descr.push("a stopped global logger is installed".into());
+        if !ex_faults_empty(&faults) {
+            gen::count("probe.accept_failure_with_stopped_logger");
+        }
     }
     let mut ex = Limit { max_conns, steps: 0, fault_at: faults, cancel_at: if gen::ratio(1, 6) { Some(u64::from(gen::below(200))) } else { None }, max_open: 0, max_jobs: 0, cancelled: false };
     if let Some(mut v) = eng.run(&mut ex) {
@@ -383,12 +411,12 @@ pub fn spec() -> PropertySpec {
     PropertySpec {
         id: "C12",
         level: "exploration",
-        rule: "Server level: max_conns 1-4, 2-3x as many simulated clients whose connections end in every listed way (normal close, handler 4xx/5xx, handler panic, dropped by the handler, malformed request, RST / FIN mid-head, abort mid-body, abort mid-upload, abort while the response is written, connect-and-close) in tape-chosen orders and overlaps with handlers held 'running' for tape-chosen spans; accept failures injected by the simulated listener (EMFILE bursts: the connection stays in the backlog; other errors: it is gone), each followed in the real code by a 500 ms virtual sleep; task cancellation. Per-step invariant: connections being serviced <= max_conns and handler invocations in flight <= max_conns. Conservation by quiescence: after the history, max_conns+1 fresh connections with held handlers - exactly max_conns must reach their handler, then all are served once handlers are released. API level: TokenSet/Token sequences of depth 8-12 over {async take (cancelled when it would block), timed take, drop i-th} against a counter model. distinct = schedule hash / op sequence.",
+        rule: "Server level: max_conns 1-4, 2-3x as many simulated clients whose connections end in every listed way (normal close, handler 4xx/5xx, handler panic, dropped by the handler, malformed request, RST / FIN mid-head, abort mid-body, abort mid-upload, abort while the response is written, connect-and-close) in tape-chosen orders and overlaps with handlers held 'running' for tape-chosen spans; accept failures injected by the simulated listener (EMFILE bursts: the connection stays in the backlog; other errors: it is gone), each followed in the real code by a 500 ms virtual sleep, in a share of the runs with a stopped global logger installed (accept failures are logged); task cancellation. Per-step invariant: connections being serviced <= max_conns and handler invocations in flight <= max_conns. Conservation by quiescence: after the history, max_conns+1 fresh connections with held handlers - exactly max_conns must reach their handler, then all are served once handlers are released. API level: TokenSet/Token sequences of depth 8-12 over {async take (cancelled when it would block), timed take, drop i-th} against a counter model. distinct = schedule hash / op sequence.",
         scenarios: vec![
             Scenario { name: "c12.server", property: "C12", func: server_level, runs_quick: 300_000, runs_thorough: 8_000_000, doc: "server level" },
             Scenario { name: "c12.token_api", property: "C12", func: token_api, runs_quick: 300_000, runs_thorough: 5_000_000, doc: "slot pool API vs counter model" },
         ],
-        required_probes: vec!["probe.limit_reached", "fault.accept_emfile", "fault.accept_aborted", "probe.accept_failed_then_probe_passed", "fault.client_rst", "job.panicked", "timer.sleep_for"],
+        required_probes: vec!["probe.accept_failure_with_stopped_logger", "probe.limit_reached", "fault.accept_emfile", "fault.accept_aborted", "probe.accept_failed_then_probe_passed", "fault.client_rst", "job.panicked", "timer.sleep_for"],
         components: components_server(),
         assumptions: vec!["the kernel accept backlog is an unbounded queue in the simulated listener", "unbounded blocking pool: a held handler never starves another"],
     }
